@@ -932,7 +932,7 @@ pub fn replay(case: &Value) -> Option<Check> {
 
 fn replay_kind(kind: &str, mode: Operands, case: &Value) -> Check {
     let bad = || Err(Violation::new("unreadable wide replay case", case.clone()));
-    (match kind {
+    match kind {
         "wide-conn" => match (W::from_json(&case["a"]), W::from_json(&case["b"]), W::from_json(&case["c"])) {
             (Some(a), Some(b), Some(c)) => fun::with_operands(mode, || check_conn(&a, &b, &c, case["canon"].as_bool().unwrap_or(false))),
             _ => bad(),
@@ -970,7 +970,7 @@ fn replay_kind(kind: &str, mode: Operands, case: &Value) -> Check {
             None => bad(),
         },
         _ => bad(),
-    })
+    }
 }
 
 // ------------------------------------------------------------------------------------------------
